@@ -15,12 +15,12 @@ META = {
             "update + diagnose_file + semantic info / infer on every token and expression in child processes on 2 MiB stacks under a "
             "wall-clock budget; a panic, an abort (stack overflow) or a timeout is the replay.",
     "note": "Recursion guards proved; totality explored, not proved. The search DOES find crashes: unguarded recursions over "
-            "self-referential generics / aliases / class graphs overflow the stack (process abort), exponential type checks hang. Six "
+            "self-referential generics / aliases / class graphs overflow the stack (process abort), exponential type checks hang. Seven "
             "classes were repaired in /repo (comment inside index brackets ccf2a41, remove_type 66e20f3, narrow_down_type c568a5f, "
-            "call-non-callable 294e839, integer constant folding overflow c3dc79d, long-string value 44d94e8); fourteen remain open findings (findings/C12.json), identified "
+            "call-non-callable 294e839, integer constant folding overflow c3dc79d, long-string value 44d94e8, nesting bound on generic instantiation 67d6cc4); nineteen remain open findings (three of them fallback names for overflows gdb could not sample) (findings/C12.json), identified "
             "by the function in which the stack overflows / the time is spent, and the check fails on any crash with a new signature. "
-            "Trusted: Coq kernel; the hand models (the type-check / sub-type model is validated by correspondence, the InferGuard and "
-            "humanizer skeletons only by reading + constants/anchors regenerated from source); gdb for crash signatures; the search is "
+            "Trusted: Coq kernel; the hand models (the type-check / sub-type model, the InferGuard model and the humanizer "
+            "depth guard are validated by correspondence; gdb for crash signatures; the search is "
             "sampling. Axioms: none.",
     "technique": "Coq proof of termination / depth bounds (fuel-indexed models, invariants over visited sets) about hand-written Gallina "
                  "transcriptions + constants regenerated from source + correspondence on cyclic graphs + crash search in sandboxed child processes",
@@ -36,7 +36,8 @@ THEOREMS = [
 
 TRUSTED = MODEL_TRUSTED + [
     "hand-written model coq/theories/C12/Model.v of semantic/guard.rs (InferGuard: heap of guard nodes, fork/check) and of the "
-    "recursion skeleton of db_index/type/humanize_type.rs (every descent through write_type); not tied by correspondence",
+    "recursion skeleton of db_index/type/humanize_type.rs (every descent through write_type); tied by correspondence: random "
+    "new/fork/check programs on the real InferGuard, and whether TypeHumanizer::with_max_depth cuts nested array/tuple/union types",
     "the crash search (harness vh_analysis/src/bin/c12.rs) is exploration: child processes, 2 MiB thread stacks, per-case wall-clock budget",
 ]
 
@@ -59,7 +60,10 @@ def with_own_findings(ck):
     ck.load_known = load
 
 
-RAW_TIMEOUT_NAMES = ["timeout@LuaTypeIndex::super_reaches", "timeout@checker::check_file", "timeout@find_members::find_members_guard",
+RAW_TIMEOUT_NAMES = ["signal6:stack-overflow:alias:generic", "signal6:stack-overflow:class:generic-cycle", "signal6:stack-overflow:class:chain",
+                     "signal6:stack-overflow:generic:random-types", "signal6:stack-overflow:mix:mix", "signal6:stack-overflow:class:braid",
+                     "timeout@instantiate_type::instantiate_type_generic_inner", "timeout@infer_index::infer_member_by_operator_key_type", "timeout:generic:random-types",
+                     "timeout@LuaTypeIndex::super_reaches", "timeout@checker::check_file", "timeout@find_members::find_members_guard",
                      "timeout@EmmyLuaAnalysis::update_files_by_uri", "timeout@type_check::check_general_type_compact",
                      "timeout@generic_type::check_generic_type_compact", "timeout@instantiate_special_generic::instantiate_alias_call",
                      "timeout:alias:generic", "timeout:alias:self", "timeout:alias:mutual", "timeout:mix:mix", "timeout:class:chain",
@@ -70,9 +74,23 @@ TIMEOUT_CLASSES = [
     ("timeout:class-chain:depth>=1000", lambda t: len(re.findall(r"(?m)^---@class \w+: \w+\s*$", t)) >= 1000),
     ("timeout:recursive-mapped-alias", lambda t: any(re.search(r"\b%s\b" % re.escape(m.group(1)), m.group(2))
                                                       for m in re.finditer(r"(?m)^---@alias (\w+)(?:<[^>\n]*>)?\s+(.*\[\s*\w+ in keyof.*)$", t))),
+    ("timeout:self-conditional-alias", lambda t: any(re.search(r"\b%s\b" % re.escape(m.group(1)), m.group(2))
+                                                      for m in re.finditer(r"(?m)^---@alias (\w+)(?:<[^>\n]*>)?\s+(.*\bextends\b.*)$", t))),
     ("timeout:generic-bound-cycle", lambda t: re.search(r"(?m)^---@class (\w+)<\w+\s*:\s*\1<", t) is not None),
     ("timeout:alias-through-intersection", lambda t: _alias_through_intersection(t)),
+    ("timeout:self-referential-generic-class", lambda t: _self_referential_generic_class(t)),
 ]
+
+
+def _self_referential_generic_class(t):
+    """a generic class that inherits from an instance of itself, or whose field / operator types apply keyof or a mapped
+    type to an instance of the class"""
+    for n in set(re.findall(r"(?m)^---@class (\w+)<", t)):
+        if re.search(r"(?m)^---@class %s<[^>\n]*>\s*:.*\b%s<" % (n, n), t):
+            return True
+        if re.search(r"(?m)^---@(?:field|operator|param|return).*(?:keyof|\bin keyof\b).*\b%s<" % n, t):
+            return True
+    return False
 
 
 def _alias_through_intersection(t):
@@ -87,17 +105,71 @@ def normalise(v, case):
     """The harness names a time-out after the function one gdb sample happens to land in; for the exponential / quadratic
     blow-ups that name varies from run to run (and with the machine load).  Time-outs are therefore keyed by the shape of
     the program: the class of input that is known to blow up.  Anything else keeps the harness signature."""
-    if v.get("kind") != "timeout":
+    fallback_overflow = v.get("kind") == "signal" and v["signature"].startswith("signal6:stack-overflow:")
+    if v.get("kind") != "timeout" and not fallback_overflow:
         return v["signature"]
     orig = v.get("case") or case
     text = "\n".join(f[1] for f in (orig.get("files") or []))
     for sig, pred in TIMEOUT_CLASSES:
         try:
             if pred(text):
-                return sig
+                # a stack overflow whose site gdb could not sample (the harness fell back to the family name) is keyed
+                # by the same input classes
+                return sig.replace("timeout:", "signal6:stack-overflow:", 1) if fallback_overflow else sig
         except re.error:
             pass
     return v["signature"]
+
+
+def guard_correspondence(ck, binpath, n):
+    """the InferGuard model against the real InferGuard: random new / fork / check programs"""
+    rc, out, err = ck.run_bin(binpath, ["guards", "--seed", ck.seed, "--n", n], timeout=600)
+    if rc != 0:
+        ck.tie_broken("harness c16 guards failed", err[-1500:])
+        return
+    cases = [json.loads(l) for l in out.split("\n") if l.strip().startswith("{")]
+    terms = []
+    for c in cases:
+        ops = []
+        for o in c["ops"]:
+            ops.append("GNew" if o[0] == "new" else ("GFork %d%%nat" % o[1] if o[0] == "fork" else "GCheck %d%%nat %d" % (o[1], o[2])))
+        terms.append("{| gc_ops := %s; gc_answers := %s |}" % (coq_list(ops), coq_list(["true" if a else "false" for a in c["answers"]])))
+    failing = ck.coq_failing("corr_guard", terms, ["EV.C16.Model", "EV.C12.Model", "EV.C12.Corr"], check_fn="check_gcase", case_type="gcase",
+                             per_shard=400, timeout=900)
+    for i in (failing or [])[:3]:
+        ck.tie_broken("model/implementation disagreement on InferGuard (fork / check)", json.dumps(cases[i])[:2000])
+    ck.cov["distribution"]["guard_correspondence"] = {"programs": len(cases), "checks": sum(len(c["answers"]) for c in cases),
+                                                      "refused": sum(1 for c in cases for a in c["answers"] if not a)}
+    for c in cases:
+        ck.count_case(("guard", json.dumps(c["ops"])), nontrivial=any(o[0] == "fork" for o in c["ops"]))
+
+
+def humanize_correspondence(ck, binpath, n):
+    """the depth guard of the humanizer model against TypeHumanizer::with_max_depth: is the rendering cut"""
+    rc, out, err = ck.run_bin(binpath, ["humanize", "--seed", ck.seed, "--n", n], timeout=600)
+    if rc != 0:
+        ck.tie_broken("harness c16 humanize failed", err[-1500:])
+        return
+    cases = [json.loads(l) for l in out.split("\n") if l.strip().startswith("{")]
+    it = Interner()
+    terms, kept = [], []
+    for c in cases:
+        try:
+            t = ty_to_coq(c["type"], it)
+        except OutOfGrammar:
+            continue
+        terms.append("{| hc_type := %s; hc_max_depth := %d; hc_dots := %s |}" % (t, c["max_depth"], "true" if c["dots"] else "false"))
+        kept.append(c)
+    failing = ck.coq_failing("corr_hum", terms, ["EV.C16.Model", "EV.C12.Model", "EV.C12.Corr"], check_fn="check_hcase", case_type="hcase",
+                             per_shard=400, timeout=900)
+    for i in (failing or [])[:3]:
+        c = kept[i]
+        ck.tie_broken("model/implementation disagreement on the humanizer depth guard: `%s` max_depth %d renders %r" % (c["spec"], c["max_depth"], c["text"][:80]),
+                      json.dumps(c)[:2000])
+    ck.cov["distribution"]["humanize_correspondence"] = {"types": len(kept), "cut": sum(1 for c in kept if c["dots"]),
+                                                         "outside_grammar": len(cases) - len(kept)}
+    for c in kept:
+        ck.count_case(("hum", c["spec"], c["max_depth"]), nontrivial=len(c["spec"]) > 8)
 
 
 def search(ck, binpath, n, budget_ms):
@@ -159,7 +231,7 @@ def main(argv):
         replay(ck, bins["c12"], ck.replay)
         ck.finish(trusted_base=TRUSTED)
     have_consts = regenerate_consts(ck)
-    ok = have_consts and ck.coq_make(["theories/C12/Props.vo", "theories/C16/Corr.vo"])
+    ok = have_consts and ck.coq_make(["theories/C12/Props.vo", "theories/C16/Corr.vo", "theories/C12/Corr.vo"])
     if ok:
         ck.coq_gates(["C12", "C16"], THEOREMS, "EV.C12.Props")
     if bins:
@@ -168,6 +240,8 @@ def main(argv):
             ck.seed += 1000
             correspondence(ck, bins["c16"], ck.scale(24, 240), label="corr12")
             ck.seed -= 1000
+            guard_correspondence(ck, bins["c16"], ck.scale(400, 4000))
+            humanize_correspondence(ck, bins["c16"], ck.scale(300, 3000))
         if ck.broken:
             ck.deep = True
         search(ck, bins["c12"], ck.scale(300, 4000), ck.scale(90000, 900000))
